@@ -17,6 +17,7 @@ package tcp
 import (
 	"fmt"
 	"io"
+	"math/rand"
 	"net"
 	"runtime"
 	"sync"
@@ -37,7 +38,7 @@ type c35SeqMux struct {
 }
 
 func c35StartSeqMux(headers []byte, timeout time.Duration) (*c35SeqMux, error) {
-	ln, err := net.Listen("tcp", "127.0.0.1:0")
+	ln, err := c35Listen()
 	if err != nil {
 		return nil, err
 	}
@@ -93,7 +94,7 @@ func (m *c35SeqMux) tracked() int {
 // c35Connect opens one connection of the given kind and finishes it from the
 // client side; hold = keep it open without sending until the mux gives up.
 func c35Connect(addr string, first []byte, hold bool) error {
-	c, err := net.DialTimeout("tcp", addr, 10*time.Second)
+	c, err := c35Dial(addr)
 	if err != nil {
 		return err
 	}
@@ -147,7 +148,8 @@ func TestVerif_C35_MuxSeq(t *testing.T) {
 
 		m, err := c35StartSeqMux([]byte{1, 2}, 40*time.Millisecond)
 		if err != nil {
-			rt.Skipf("infrastructure: %v", err)
+			rec.Label("inconclusive:infrastructure")
+			return
 		}
 		addr := m.ln.Addr().String()
 		for i, k := range kinds {
@@ -173,7 +175,8 @@ func TestVerif_C35_MuxSeq(t *testing.T) {
 			}
 			if err := c35Connect(addr, first, hold); err != nil {
 				m.finish()
-				rt.Skipf("infrastructure: %v", err)
+				rec.Label("inconclusive:infrastructure")
+				return
 			}
 		}
 		left := m.finish()
@@ -247,4 +250,53 @@ func TestVerif_C35_MuxHeap(t *testing.T) {
 	if per > 96 {
 		t.Fatalf("%s", rec.Violation("C35/mux-heap-grows-with-connections", "live heap grew by %d bytes over %d finished connections (%.0f bytes each): %v", growth, 2*n, per, heaps))
 	}
+}
+
+// ---- infrastructure helpers (not part of any oracle) ----
+
+// c35Dial connects to addr from a random loopback source address 127.x.y.z.
+// Sockets of a client that closes (or half-closes) first stay in TIME_WAIT for
+// 60 s; with 127.0.0.1 as the only source address, thousands of short
+// connections per second from many check processes would leave no free port
+// for bind(127.0.0.1:0), i.e. for every new listener on the machine. Spreading
+// the client side over 127/8 keeps those sockets away from 127.0.0.1. A few
+// retries with back-off absorb transient failures.
+func c35Dial(addr string) (net.Conn, error) {
+	var last error
+	for try := 0; try < 5; try++ {
+		d := net.Dialer{Timeout: 10 * time.Second, LocalAddr: &net.TCPAddr{IP: net.IPv4(127, byte(1+rand.Intn(250)), byte(rand.Intn(256)), byte(1+rand.Intn(250)))}}
+		c, err := d.Dial("tcp", addr)
+		if err == nil {
+			return c, nil
+		}
+		last = err
+		time.Sleep(time.Duration(25*(try+1)) * time.Millisecond)
+	}
+	return nil, last
+}
+
+// c35Listen listens on 127.0.0.1:0, retrying a few times.
+func c35Listen() (net.Listener, error) {
+	var last error
+	for try := 0; try < 5; try++ {
+		ln, err := net.Listen("tcp", "127.0.0.1:0")
+		if err == nil {
+			return ln, nil
+		}
+		last = err
+		time.Sleep(time.Duration(50*(try+1)) * time.Millisecond)
+	}
+	return nil, last
+}
+
+// c35Retry runs f up to five times with a short back-off.
+func c35Retry(f func() error) error {
+	var last error
+	for try := 0; try < 5; try++ {
+		if last = f(); last == nil {
+			return nil
+		}
+		time.Sleep(time.Duration(50*(try+1)) * time.Millisecond)
+	}
+	return last
 }
